@@ -5,3 +5,22 @@ CLAIMED["C03"] = dict(
 _WIP = "check not built yet in this session (work in progress; see DESIGN.md section 4 for the planned static rules)"
 for _p in ["C01","C02","C04","C05","C06","C07","C08","C09","C10","C11","C12","C13","C14","C15","C16","C17","C18","C19","C20"]:
     NA[_p] = _WIP
+
+CLAIMED["C19"] = dict(
+    technique="static analysis: AST + go/cfg path-sensitive protocol check of all api.Entry call sites in the 12 adapter modules (types.Info resolved)",
+    decided="at each of the 25 api.Entry sites: the block error is bound and tested against nil before any use of the entry or handler call; the blocked branch neither invokes the handler nor touches the nil entry and consults the configured fallback; entry.Exit is reached on every admitted path and is deferred before every handler invocation (covers handler panics); the handler is invoked exactly once, never in a loop; a handler error is passed to api.TraceError on its non-nil branch.",
+    not_decided="the behaviour of the frameworks themselves (that Next()/next really runs the wrapped handler once); which default rejection is produced; custom-chain (outlier) branches' per-callee error attribution.")
+CLAIMED["C12"] = dict(
+    technique="static analysis: SSA enumeration of all State.cas sites, dominance (publish-after-initialise), atomic-only field discipline",
+    decided="every transition is a CAS from a constant state with the listener notification inside the winner's success branch and the correct previous state (so exactly one caller performs and reports it); the retry deadline is stored before Open is published by the CAS; the only admitting paths while Open/HalfOpen are the CAS winner or probeNumber>0; deadline, probe counter and state word are accessed only atomically.",
+    not_decided="any statement that needs enumeration of interleavings (e.g. exactly one probe admitted across racing TryPass callers is inferred from CAS atomicity, not explored); timing of the retry timeout.")
+CLAIMED["C09"] = dict(
+    technique="static analysis: atomic-only dataflow over SSA, dominance ordering in every ResetBucketTo, lock-region check around bucket reset, value-origin check of recorder targets",
+    decided="all window counters and BucketStart are accessed only through sync/atomic in live code; every ResetBucketTo clears the data before publishing the new start; buckets are reset only inside currentBucketOfTime under a successful TryLock that is released on every path; a recorder is handed a bucket only when its start equals the recorder's bucket start (or after its own reset / CAS install / single-bucket branch) and records into the bucket selected for its own timestamp; collectors filter expired buckets.",
+    not_decided="quantitative statements over interleavings (no duplicated update, exact sums without overlap), stragglers stalled longer than a bucket, termination of the spin loop under an adversarial scheduler.")
+CLAIMED["C08"] = dict(
+    technique="static analysis: who-may-construct + branch-fact dominance for the tiling check, guarded-append check for expiry filtering, guarded unsigned arithmetic on timestamps",
+    decided="a SlidingWindowMetric is allocated only after CheckValidityForReuseStatistic returned nil, which requires non-zero parameters and exact tiling of parent buckets; every collector of buckets appends only under isBucketDeprecated==false; the window view selects buckets by start<=ws<=end of getBucketStartRange(now); uint64 timestamp subtractions in core/stat/base cannot wrap (guard, a-a%b idiom, expiry comparison, one named exception).",
+    not_decided="equality of any statistic with the aligned-bucket reference model for arbitrary histories (the core of the property): no static argument in reach bounds window contents.")
+for _p in ["C19","C12","C09","C08"]:
+    NA.pop(_p, None)
